@@ -265,6 +265,41 @@ def run(res, tier, lean, prop="C01", proof_breaks=(), build_log=""):
                            "tree": out["tree"], "probes": out["probes"]}, signature=f"{prop.lower()}-burst-judge")
             break
 
+    # the back-to-back regime in the model (WD.Pipe.Sys.burst: the whole burst read as one batch after its last
+    # operation): per burst, the real observer's events against the model's - in order for bursts of simple operations
+    # (the regime of C01.burst_simple_partial), as a multiset for the others (the order in which a directory walk
+    # discovers entries is the listing order of the real file system)
+    blines, bmeta = [], []
+    for init_b, bursts, recursive, full, small, vanish, out in burst_runs:
+        if vanish is not None or out.get("rm_faults") or out["timeout"] or out["thread_errors"] or not recursive:
+            continue
+        applied = out["applied"][:len(out["per_op"])]
+        blines.append((f"pipeburst {int(recursive)} {int(full)} I {len(init_b)} " + " ".join(pipe.op_token(o) for o in init_b) +
+                       f" B {len(applied)} " + " ".join(f"{len(b)} " + " ".join(pipe.op_token(o) for o in b) for b in applied)
+                       ).replace("  ", " "))
+        bmeta.append((init_b, applied, out, full, small))
+    bbad = []
+    for line, o, (init_b, applied, out, full, small) in zip(blines, lean.run(blines) if blines else [], bmeta):
+        if o == "bad-op":
+            raise RuntimeError("driver refused " + line)
+        parts = o.split(" | ")[0].split(" ; ") if applied else []
+        for bi, (ops_b, real, mod) in enumerate(zip(applied, out["per_op"], parts)):
+            mevs, _, simple = mod.rpartition(" simple=")
+            realc = ",".join(pipe.canon_events(real))
+            res.bump("bursts_replayed_in_model")
+            if simple == "1":
+                res.bump("simple_bursts_replayed_in_model")
+            same = (realc == mevs) if simple == "1" else (sorted(realc.split(",")) == sorted(mevs.split(",")))
+            if not same:
+                bbad.append({"request": line, "burst_index": bi, "burst": ops_b, "simple": simple == "1",
+                             "implementation": realc, "model": mevs, "one_record_per_read": small})
+                break
+    if bbad and not res.violations:
+        res.violation(f"correspondence WD.Pipe.Sys.burst <-> InotifyObserver broken in the back-to-back regime (theorem "
+                      f"C01.burst_simple_partial no longer tied to the code); every burst was judged by {prop}'s own "
+                      "observables and none failed", dict(bbad[0], mismatching_bursts=len(bbad)), no_input=True,
+                      signature=f"{prop.lower()}-burst-model")
+
     # a table-level theorem about the model's emitter no longer checks against the regenerated decision table of
     # InotifyEmitter.queue_events: every history above was judged; if none of them failed, report the broken obligation
     if proof_breaks and not res.violations:
